@@ -13,6 +13,8 @@ minimum of the expiries of everything held, `c04_params`), `readHeight` computes
 carries exactly the value stored in the owner's program counter (`c04_carried`).
 -/
 import Tramp.Props.Sys
+import Tramp.Proofs.SysPcInv
+import Tramp.Proofs.SysExpiry
 
 namespace Tramp
 
@@ -67,6 +69,49 @@ theorem c04_carried (c : Cfg) (s s' : SState) (a : SAct) (outs : List Out) (b : 
     simp only [payOut, List.mem_singleton, Out.pay.injEq] at ho
     obtain ⟨_, _, hmf, hmd⟩ := ho
     exact ⟨e, o, aid, g, hact, by rw [hpc, hmf, hmd]⟩
+
+/-- End to end for the policy half of the bound: from EVERY reachable state, whatever was scheduled,
+    crashed or made to fail before, a pay request carries a delay of at most the policy's CLTV delta
+    (and fits 16 bits). The invariant behind it (`delayPred`, inductive under every action): the delay
+    stored with an attempt is a value of `maxDelay`. -/
+theorem c04_pay_delay_bounded (c : Cfg) (s s' : SState) (a : SAct) (outs : List Out) (b : Nat) (am : Option Nat)
+    (mf md : Nat) (hr : Reach c s) (hs : sstep c .current s a = some (s', outs)) (ho : Out.pay b am mf md ∈ outs) :
+    md ≤ c.policyDelta ∧ md ≤ 65535 := by
+  obtain ⟨e, o, aid, g, hact, hpc⟩ := c04_carried c s s' a outs b am mf md hr hs ho
+  obtain ⟨acts, _, hrun⟩ := hr
+  have hinv := (delayPred c).run acts SState.init s (delayPred c).init hrun e o hact
+  rw [hpc] at hinv
+  exact hinv
+
+/-- **C04 end to end.** From EVERY reachable state, a pay request's delay `md` is `maxDelay` of
+    (i) an expiry `exp` that is a lower bound of the expiries of the first `k` HTLCs of the entry —
+    the HTLCs held when the payment was initiated: listeners are only ever appended
+    (`add_listeners`), and `k` was the number held at that moment (`exp_step`, case `readParams`) —
+    and (ii) a height `h` the register had at that time (`h ≤` the height it has now). Hence
+    `md ≤ exp − h − safety delta` (floored at zero) and `md ≤` the policy delta, whatever arrived,
+    was mined, crashed or failed in between. -/
+theorem c04_end_to_end (c : Cfg) (s s' : SState) (a : SAct) (outs : List Out) (b : Nat) (am : Option Nat)
+    (mf md : Nat) (hr : Reach c s) (hs : sstep c .current s a = some (s', outs)) (ho : Out.pay b am mf md ∈ outs) :
+    ∃ e o exp h k, s.active = some (e, o) ∧ k ≤ e.listeners.length ∧ (∀ i ∈ e.listeners.take k, exp ≤ i.expiry) ∧
+      h ≤ s.height ∧ md = maxDelay c exp h ∧ md ≤ exp - h - c.cltvDelta ∧ md ≤ c.policyDelta := by
+  obtain ⟨e, o, aid, g, hact, hpc⟩ := c04_carried c s s' a outs b am mf md hr hs ho
+  obtain ⟨acts, _, hrun⟩ := hr
+  have h0 := einv_reachable c [] SState.init rfl
+  have hinv := exp_run c acts SState.init s (exp_init c) h0.1 h0.2 hrun e o hact
+  rw [hpc] at hinv
+  obtain ⟨exp, h, k, hmd, hle, hk, hall⟩ := hinv
+  have hb := c04_bound c exp h
+  exact ⟨e, o, exp, h, k, hact, hk, hall, hle, hmd, by rw [hmd]; exact hb.2.1, by rw [hmd]; exact hb.1⟩
+
+/-- non-vacuity: in the demo run the acknowledgement of the attempt record issues the pay request,
+    with delay 144 = min(1400 − 0 − 34, 65535, 144) -/
+example : ∃ s s' outs, Reach demoCfg s ∧
+    sstep demoCfg .current s (.deliver .owner (.dsWriteAttempt 1 .mustCreate)) = some (s', outs) ∧
+    Out.pay 0 none 6000 144 ∈ outs := by
+  refine ⟨_, _, _, ⟨demoActs.take 9, ?_, rfl⟩, rfl, by decide⟩
+  intro a ha
+  simp [demoActs] at ha
+  rcases ha with rfl | rfl | rfl | rfl | rfl | rfl | rfl | rfl | rfl <;> trivial
 
 /-- …and the two write acknowledgements in between do not touch them -/
 theorem c04_unchanged (c : Cfg) (s : SState) (aid t mf md g : Nat) (q : SReq) :
